@@ -46,7 +46,9 @@ LEAN_TARGETS = ["PV.C02.Thm", "PV.C02.RThm", "PV.C02.RProgThm", "PV.C02.FStrLex"
                 "PV.C02.FSoundNodes", "PV.C02.FSoundIdx", "PV.C02.FSoundSteps", "PV.C02.FStrFull",
                 "PV.C02.FProgTie", "PV.C02.FProgPlain", "PV.C02.FProgSoundBase", "PV.C02.FProgSoundSeq",
                 "PV.C02.FProgSoundNodes", "PV.C02.FProgSoundItems", "PV.C02.FProgSound1", "PV.C02.FProgSound2",
-                "PV.C02.FProgSound3", "PV.C02.FProgSound4", "PV.C02.FProgThm"]
+                "PV.C02.FProgSound3", "PV.C02.FProgSound4", "PV.C02.FProgThm",
+                "PV.C02.GLex", "PV.C02.GField", "PV.C02.GSoundNodes", "PV.C02.GSoundIdx", "PV.C02.GStrBody",
+                "PV.C02.GSoundSteps", "PV.C02.GStrFull", "PV.C02.GShape", "PV.C02.GStrFullN"]
 DRIVER = "drv_c02"
 HARNESS = {"bin": "pvh_c01", "features": "all-ranges"}
 THEOREMS = [
@@ -102,6 +104,20 @@ THEOREMS = [
     "PV.C02.F.programBody_sound",
     "PV.C02.parseRProgram_rangesOk_fstr",
     "PV.C02.fplainM1_of_plainM",
+    # f-string literals at EVERY depth, expression level: no hypothesis on the tree
+    "PV.C02.lexString_spec",
+    "PV.C02.lexBoth_toks",
+    "PV.C02.lexBoth_spans",
+    "PV.C02.lexBoth_texts",
+    "PV.C02.inner_gtie",
+    "PV.C02.gtie_of_ftie",
+    "PV.C02.G.strings_resG",
+    "PV.C02.G.soundAtAll",
+    "PV.C02.G.shapeAt",
+    "PV.C02.parseR_fwf",
+    "PV.C02.parseR_rangesOk_fstrN",
+    "PV.C02.parseRExpression_rangesOk_fstrN",
+    "PV.C02.parseR_rangesOk_full_tied",
     # about the model of range computation for whole programs (ranged twin of the reference program parser PV.Prog)
     "PV.C02.parseRProgramFuel_erase",
     "PV.C02.parseRProgram_erase",
@@ -142,8 +158,9 @@ TRUSTED = [
     "tools/props/c11.py, tools/props/prog.py (generators, corpus, attachment rewriting), tools/shapes.py, "
     "tools/gen_program.py, tools/refsweep.py, harness/src/astdump.rs, harness/src/bin/pvh_c01.rs, lean/Drv/C02.lean, "
     "lean/Drv/C02Prog.lean, lean/PV/C02/Fwd.lean and the `ftie_tails` tactic of lean/PV/C02/FSoundSteps.lean (proof-producing "
-    "tactics; their output is kernel-checked), tools/c02_gen_fsound.py / tools/c02_gen_fsteps.py / tools/c02_gen_fprog.py "
-    "(generators of lean/PV/C02/FSound*.lean and FProg*.lean, whose output Lean checks), "
+    "tactics; their output is kernel-checked), tools/c02_gen_fsound.py / tools/c02_gen_fsteps.py / tools/c02_gen_fprog.py / tools/c02_gen_gsound.py / "
+    "tools/c02_gen_gshape.py (generators of lean/PV/C02/FSound*.lean, FProg*.lean, GSound*.lean, GStrBody.lean, "
+    "GShape.lean, whose output Lean checks; GSoundSteps.lean has its own copy `gtie_tails` of the tactic), "
     "tools/c02_gen_nodes.py (generator of lean/PV/C02/RProgSoundNodes.lean, whose output Lean checks)",
 ]
 PARTIAL = [
@@ -219,9 +236,23 @@ PARTIAL = [
     "fplainM1_of_plainM: it extends plainM. By re-running RProgSound1-4 and their vocabulary in PV.C02.F over "
     "F.soundAt with the tie carried by every function (FProg*.lean GENERATED by tools/c02_gen_fprog.py; "
     "FProgTie.lean, FProgThm.lean by hand)",
-    "not proved: an f-string nested INSIDE a replacement field (`f'{f\"{x}\"}'`: fplain1 / fplainM1 false), in both "
-    "models; needs the tie for the inner tokens — lex_lockstep strengthened from lengths to token texts — and the "
-    "induction hypothesis quantified over the span table (and all smaller fuels); the listed finding fstring-field-range-after-crlf is reproduced "
+    "proved (unbounded, for the MODEL of expressions): parseR_rangesOk_fstrN / parseRExpression_rangesOk_fstrN — for every "
+    "source, every spanned token list that tiles it (Tiled) and is tied to it (FTied), every fuel: EVERY tree the ranged "
+    "parser returns passes rangesOk, with no plain-ness or shape hypothesis: f-string literals at any position, nested "
+    "to any depth inside replacement fields and format specs (`f'{f\"{x}\"}'`, `f'{x:{f\"{y}\"}}'`). So the statement "
+    "parseR_rangesOk_full demanded is TRUE once the tie is among the hypotheses (parseR_rangesOk_full_tied) and FALSE "
+    "without it (parseR_rangesOk_fails). Ingredients: lex_lockstep strengthened to token TEXTS (GLex: every token "
+    "function of the C11 lexer returns a suffix; lexString_spec: an f-string token was read from prefix ++ quotes ++ "
+    "body ++ quotes; lexBoth = lexGo and lexSpansGo in one, lexBoth_texts); inner_gtie (GField: the inner tokens of a "
+    "field are ALIGNED with the source at the spans fieldTab gives them — the alignment form GTie of the tie is all "
+    "the induction uses, gtie_of_ftie); the 48-function induction by STRONG induction on the fuel with the span table "
+    "quantified (G.soundAtAll; GSoundNodes / GSoundIdx / GStrBody / GSoundSteps GENERATED by tools/c02_gen_gsound.py from "
+    "the F files), whose f-string step uses the hypothesis at the inner table (G.strings_resG, InnerSoundAll); and "
+    "G.shapeAt (GShape, GENERATED by tools/c02_gen_gshape.py: the parser only returns trees of well-formed f-string "
+    "shape), which removes the last hypothesis on the tree",
+    "not proved: the PROGRAM level at every depth — parseRProgram_rangesOk_fstr still demands fplainM1 (f-strings "
+    "nested inside a replacement field excluded): RProgSound1-4 would have to be re-run once more over G.soundAt "
+    "(tools/c02_gen_fprog.py with the namespace G and the tie GTie) plus the shape induction for programs; the listed finding fstring-field-range-after-crlf is reproduced "
     "by the program model per input (real token values) but lies outside the lexer model's domain",
     "the bridges tiled_of_lexer / tiledP_of_lexer relate token SPANS of the lexer model to `Tiled`; token values of "
     "PV.Lexer.Tok and PV.Expr.Tok are related only by correspondence streams",
@@ -238,8 +269,9 @@ LEVEL_TEXT = ("Machine-checked Lean 4, for every input and fuel: (1) erasing the
               "trees coincide; (2) for token spans that tile the source (proved of the lexer model by C05, bridged by "
               "tiled_of_lexer / tiledP_of_lexer) every tree that the models return — without f-string pieces, or "
               "WITH f-string literals anywhere in the tree when the f-string tokens are tied to the source "
-              "(FTied / FTiedP) and their replacement-field expressions are f-string-free (parseR_rangesOk_fstr, "
-              "parseRProgram_rangesOk_fstr) — a single "
+              "(FTied / FTiedP): for single expressions at every depth without any condition on the tree "
+              "(parseR_rangesOk_fstrN), for programs with f-string-free replacement-field expressions "
+              "(parseRProgram_rangesOk_fstr) — a single "
               "expression or a whole Module / Interactive / Expression parse with all statement, pattern, handler, case, "
               "alias, with-item, type-parameter and parameter nodes — satisfies all structural clauses of the property "
               "(inside the input, on UTF-8 boundaries, start <= end, parents enclose children with the decorator "
@@ -253,10 +285,11 @@ LEVEL_TEXT = ("Machine-checked Lean 4, for every input and fuel: (1) erasing the
               "in all three modes: PROG's corpus, directed parameter-list / with-item / rare-production shapes, generated "
               "programs with CR / CRLF / tabs / comments / BOM / continuation lines, stdlib files); the real trees are "
               "judged by an independent oracle (structure, CPython 3.11 positions, extent rules).")
-LEVEL_NOTE = ("Partial: f-string literals are inside the structural theorems of both models under the tie FTied / FTiedP "
-              "(parseR_rangesOk_fstr, parseRProgram_rangesOk_fstr: any position in the tree) except f-strings nested inside a "
-              "replacement field; the statement with `Tiled` alone is refuted (parseR_rangesOk_fails: the token value must be "
-              "tied to its span; a CR LF folded by the real lexer breaks the tie — listed finding). Exact extents of "
+LEVEL_NOTE = ("Partial: at the EXPRESSION level the structural theorem holds for EVERY tree under the tie FTied "
+              "(parseR_rangesOk_fstrN: f-string literals at any position and depth; the statement with `Tiled` alone is "
+              "refuted, parseR_rangesOk_fails: the token value must be tied to its span; a CR LF folded by the real lexer "
+              "breaks the tie — listed finding); at the PROGRAM level f-string literals are covered one level deep "
+              "(parseRProgram_rangesOk_fstr, fplainM1: f-strings nested inside a replacement field excluded). Exact extents of "
               "program-level nodes "
               "other than small statements are proved as windows / token-aligned ends, not as equations with the token "
               "span (compared per input). Trusted: fidelity of the hand-written models as sampled by the correspondence "
